@@ -6,7 +6,7 @@ out=/verif/seeded/$name
 cd /verif
 if ! git -C /repo diff --quiet; then echo "/repo is dirty, abort"; exit 2; fi
 git -C /repo apply $out/patch.diff || { echo "patch does not apply"; exit 2; }
-trap 'git -C /repo checkout -- .' EXIT
+trap 'git -C /repo checkout -- .; git -C /verif checkout -- coq/Batteries/Gen.v coq/Lock/Gen.v' EXIT
 results=""
 for p in "$@"; do
   ( ./check $p --tier quick > $out/check_$p.log 2>&1 ); rc=$?
